@@ -1,3 +1,4 @@
+pub mod batch;
 pub mod extract;
 pub mod r#gen;
 pub mod model;
